@@ -7,6 +7,7 @@
 package gosym
 
 import (
+	"context"
 	"encoding/json"
 	"fmt"
 	"os"
@@ -351,5 +352,91 @@ func ReplayMain(entries map[string]func()) {
 		}
 		out, _ := json.Marshal(res)
 		fmt.Println("GOSYM-RESULT " + string(out))
+	}
+}
+
+// ---------------------------------------------------------------------------------------
+// Context model (DESIGN.md 3.2).  Under the interpreter context.WithCancel / WithTimeout /
+// WithDeadline are redirected to these functions: the real implementations rest on runtime timers
+// and unsafe atomics.  A deadline "may fire whenever something waits on it" (job parameter
+// TIMERS_FIRE=1) or never (default).  Natively these are never called.
+
+type ModelCtx struct {
+	parent   context.Context
+	done     chan struct{}
+	err      error
+	children []*ModelCtx
+	timed    bool
+}
+
+func (c *ModelCtx) Deadline() (time.Time, bool) {
+	if c.timed {
+		return time.Time{}, true
+	}
+	return c.parent.Deadline()
+}
+func (c *ModelCtx) Done() <-chan struct{} { return c.done }
+func (c *ModelCtx) Err() error {
+	if c.err != nil {
+		return c.err
+	}
+	if ChanClosed(c.done) {
+		return context.DeadlineExceeded // the deadline channel fired
+	}
+	return nil
+}
+func (c *ModelCtx) Value(k any) any { return c.parent.Value(k) }
+
+func (c *ModelCtx) cancelWith(err error) {
+	if c.err == nil && !ChanClosed(c.done) {
+		c.err = err
+		close(c.done)
+	}
+	for _, ch := range c.children {
+		ch.cancelWith(err)
+	}
+}
+
+func newModelCtx(parent context.Context, timed bool) *ModelCtx {
+	c := &ModelCtx{parent: parent, timed: timed}
+	if timed {
+		c.done = NewTimerChan()
+	} else {
+		c.done = make(chan struct{})
+	}
+	if p, ok := parent.(*ModelCtx); ok {
+		p.children = append(p.children, c)
+	}
+	if err := parent.Err(); err != nil {
+		c.cancelWith(err)
+	}
+	return c
+}
+
+func ModelWithCancel(parent context.Context) (context.Context, context.CancelFunc) {
+	c := newModelCtx(parent, false)
+	return c, func() { c.cancelWith(context.Canceled) }
+}
+
+func ModelWithTimeout(parent context.Context, d time.Duration) (context.Context, context.CancelFunc) {
+	c := newModelCtx(parent, true)
+	return c, func() { c.cancelWith(context.Canceled) }
+}
+
+func ModelWithDeadline(parent context.Context, t time.Time) (context.Context, context.CancelFunc) {
+	c := newModelCtx(parent, true)
+	return c, func() { c.cancelWith(context.Canceled) }
+}
+
+// NewTimerChan is a channel that may deliver whenever it is waited upon (engine intrinsic).
+func NewTimerChan() chan struct{} { return make(chan struct{}) }
+
+// ChanClosed reports whether ch is closed (engine intrinsic; natively a non-blocking receive).
+func ChanClosed(ch chan struct{}) bool {
+	select {
+	case _, ok := <-ch:
+		return !ok
+	default:
+		return false
 	}
 }
